@@ -70,6 +70,7 @@ class ModelToDataFrame(FunctionContract):
         if not ok:
             return
         st, it, internal = e['flags']
+        ctx.prove(z3.BoolVal(getattr(df, 'owns_data', False)), 'table_owns_its_data_(a_snapshot_not_views_of_the_model_series)', 'own')
         ctx.prove(z3.BoolVal(df.index is e['span']), 'one_row_per_period_indexed_by_the_span', 'ensures')
         now = e['obj'].fields['names']
         ctx.prove(z3.BoolVal(len(now) == len(e['names']) and all(isinstance(a, SStr) and z3.eq(a.e, b) for a, b in zip(now, e['names']))),
